@@ -6,9 +6,9 @@ cd $wt || exit 2
 pkg=$(git status --short | grep "_test.go" | awk '{print $2}' | head -1 | xargs dirname)
 echo "== demo package: $pkg"
 echo -n "with change:    "; go test -vet=off -count=1 ./$pkg/ 2>&1 | tail -1
-git stash -q
+git apply -R patch.diff
 echo -n "without change: "; go test -vet=off -count=1 ./$pkg/ 2>&1 | tail -1
-git stash pop -q
+git apply patch.diff
 cd /verif
 git -C /repo apply $wt/patch.diff || { echo "PATCH DOES NOT APPLY"; exit 3; }
 timeout 1800 ./check $p quick 2>&1 | grep "VIOLATION\|^OK\|BROKEN\|KNOWN" | head -4 | cut -c1-260
